@@ -275,3 +275,40 @@ def run(ctx):
                    {"parse": "+003", "level": 3, "filter": 3}, {"parse": "wArN", "level": 2, "filter": 2},
                    {"parse": "18446744073709551616", "level": -1, "filter": -1}, {"strings_in_corpus": len(strs)}]
     return rep
+
+
+def replay(ctx, payload):
+    """Re-run one recorded failing case against the implementation (and the spec oracle)."""
+    case = payload.get("case") or {}
+    if payload.get("kind") != "failing-input" or case.get("kind") not in ("op", "parse_level", "parse_filter"):
+        return run(ctx)
+    rep = Report(ctx)
+    rep.rule = "replay of one recorded case"
+    rep.proof = coq_prove(ctx, "C19", ["theories/Properties/C19.vo"])
+    rel = case.get("profile") == "release"
+    ok, paths, log = cargo_build(ctx, "core", ["h_levels"], release=rel)
+    if not ok:
+        rep.tie("build:h_levels", False, vlib.last_error(log))
+        return rep
+    stdin = (case.get("input", "").encode("utf-8").hex() + "\n") if case["kind"] != "op" else ""
+    rc, out = run_bin(paths["h_levels"], input=stdin, timeout=300)
+    for r in (json.loads(l) for l in out.splitlines() if l.startswith("{")):
+        rep.evaluations += 1
+        if case["kind"] == "op" and r["k"] == "op" and (r["op"], r["a"], r["b"]) == (case["op"], case["a"], case["b"]):
+            want = spec_op(r["op"], r["a"], r["b"])
+            rep.samples.append({"replayed": r, "spec": want})
+            rep.nontrivial.add(("op", r["op"], r["a"], r["b"]))
+            if r["r"] != want:
+                rep.violation("operator %s(%s,%s) = %s but the order gives %s" % (r["op"], r["a"], r["b"], r["r"], want), case)
+        if case["kind"] != "op" and r["k"] == "parse":
+            s = bytes.fromhex(r["s"]).decode("utf-8")
+            filt = case["kind"] == "parse_filter"
+            got = r["filter" if filt else "level"]
+            want = spec_parse(s, filt)
+            rep.samples.append({"replayed": r, "spec": want})
+            rep.nontrivial.add(("str", s))
+            if got != want:
+                rep.violation("%s::from_str(%r) = %s, documented language gives %s" % ("LevelFilter" if filt else "Level", s, got, want), case,
+                              finding="F13" if (filt and s == "" and got == 1) else None)
+    rep.nontrivial.add(("replay",))
+    return rep
